@@ -7,6 +7,7 @@ import (
 	"testing"
 
 	erpc "github.com/henrylee2cn/erpc/v6"
+	"github.com/henrylee2cn/erpc/v6/socket"
 	"pgregory.net/rapid"
 
 	"verifharness/vt"
@@ -50,7 +51,7 @@ func genC03(t *rapid.T, protos []vt.NamedProto) c03Case {
 			}
 		}
 		f.Route = rapid.SampledFrom([]string{"lib", "lib", "lib", "lib", "unknown", "empty", "long"}).Draw(t, "route")
-		f.Act = rapid.SampledFrom([]string{"ret", "ret", "err", "panic-s", "panic-e", "panic-st", "slow", "badreply"}).Draw(t, "act")
+		f.Act = rapid.SampledFrom([]string{"ret", "ret", "err", "panic-s", "panic-e", "panic-st", "slow", "badreply", "bigreply"}).Draw(t, "act")
 		f.Body = rapid.SampledFrom([]string{"ok", "ok", "ok", "undecodable", "empty"}).Draw(t, "body")
 		f.Codec = rapid.SampledFrom([]string{"json", "json", "json", "json", "unreg", "zero"}).Draw(t, "codec")
 		if f.Codec == "zero" && rapid.IntRange(0, 3).Draw(t, "rarezero") != 0 {
@@ -163,8 +164,8 @@ func (f c03Frame) expectedCode() int32 {
 		return 4242
 	case "panic-s", "panic-e", "panic-st":
 		return 500 // a panic of any value is the framework's 500 rule
-	case "badreply":
-		return 500
+	case "badreply", "bigreply":
+		return 500 // the reply cannot be written (unmarshalable / over the size limit): one 500 instead
 	}
 	return 0
 }
@@ -236,6 +237,11 @@ func runC03(c c03Case, protos []vt.NamedProto) []string {
 	hasKiller := false
 	var releases []func()
 	for _, f := range c.Frames {
+		if f.Act == "bigreply" {
+			// a configured message size limit that the handler's result exceeds
+			socket.SetMessageSizeLimit(64 << 10)
+			defer socket.SetMessageSizeLimit(0)
+		}
 		if f.killer() {
 			hasKiller = true
 		}
@@ -386,7 +392,7 @@ func countReplies(fr []vt.RawFrame) int {
 
 func (c c03Case) nontrivial() bool {
 	for _, f := range c.Frames {
-		if f.Kind == "call" && (f.Route != "lib" || f.Veto != "" || f.Panic != "" || !f.decodes() || strings.HasPrefix(f.Act, "panic") || f.Act == "badreply" || f.Act == "err") {
+		if f.Kind == "call" && (f.Route != "lib" || f.Veto != "" || f.Panic != "" || !f.decodes() || strings.HasPrefix(f.Act, "panic") || f.Act == "badreply" || f.Act == "bigreply" || f.Act == "err") {
 			return true
 		}
 	}
@@ -394,7 +400,7 @@ func (c c03Case) nontrivial() bool {
 }
 
 func TestC03Dispatch(t *testing.T) {
-	rec := vt.NewRec(t, "C03", "dispatch", "a scripted raw peer sends 1-10 generated frames (type byte, route known/unknown/empty/255 bytes, body decodable/undecodable/empty, codec registered/unregistered/0, veto metadata for a pre-handler plugin, a plugin panicking at PostReadCallBody / PreWriteReply / PostWriteReply, duplicate and extreme seqs; handler behaviour return/error/panic(string,error,*Status)/gated/unmarshalable reply) to a real server session, pipelined in one write or frame by frame, under a generated read chunking; reference model of dispatch decides expected replies per seq and handler invocations per request id; non-trivial = an error path or >=2 pipelined frames; distinct by the frame list")
+	rec := vt.NewRec(t, "C03", "dispatch", "a scripted raw peer sends 1-10 generated frames (type byte, route known/unknown/empty/255 bytes, body decodable/undecodable/empty, codec registered/unregistered/0, veto metadata for a pre-handler plugin, a plugin panicking at PostReadCallBody / PreWriteReply / PostWriteReply, duplicate and extreme seqs; handler behaviour return/error/panic(string,error,*Status)/gated/unmarshalable reply/reply larger than a configured 64 KiB message size limit) to a real server session, pipelined in one write or frame by frame, under a generated read chunking; reference model of dispatch decides expected replies per seq and handler invocations per request id; non-trivial = an error path or >=2 pipelined frames; distinct by the frame list")
 	protos := vt.StreamProtos()
 	rapid.Check(t, func(t *rapid.T) {
 		c := genC03(t, protos)
